@@ -185,7 +185,17 @@ fn push_chars(rng: &mut Rng, out: &mut Vec<u8>, kinds: &mut Vec<&'static str>) {
     // A run of chars, mostly plain, with a few whitespace / case-expanding ones mixed in.
     let n = rng.range_usize(1, 24);
     for _ in 0..n {
-        let c: u32 = match rng.below(11) {
+        let c: u32 = match rng.below(12) {
+            // an ALIAS of an interesting char: `char::arbitrary` reduces the drawn u32 modulo
+            // 0x110000 and maps the surrogate block 0xD800..=0xDFFF down to 0x0000..=0x07FF
+            11 => {
+                let x = if rng.chance(1, 2) { *rng.pick(simcore::decl::case_expanding()) as u32 } else { INTERESTING_CHARS[rng.usize_below(36)] };
+                if x < 0x800 && rng.chance(1, 2) {
+                    0xD800 + x
+                } else {
+                    x + 0x11_0000u32 * (rng.below(3800) as u32 + 1)
+                }
+            }
             0 => INTERESTING_CHARS[rng.usize_below(25)],
             1 | 2 => *rng.pick(INTERESTING_CHARS),
             10 => *rng.pick(simcore::decl::case_expanding()) as u32,
